@@ -126,7 +126,16 @@ void bad_union_pun(long double v) {
   println("  .quad %lu", u.w[1]);
 }
 
+// R12.15: the enumeration is unsigned for the host compiler, int for chibicc
+typedef enum { K_VOID, K_BOOL, K_CHAR, K_ENUM } Kind;
+int bad_enum_range(Kind k) {
+  return k - K_BOOL <= K_ENUM - K_BOOL;
+}
+
 // ---- must stay silent
+int good_enum_index(Kind k, int *tab) {
+  return tab[k - K_VOID] + (k == K_ENUM) + (k < K_CHAR);
+}
 void good_union_pun(long double v, double d) {
   union { long double f; unsigned long w[2]; } u;
   memset(&u, 0, sizeof(u));
